@@ -629,31 +629,47 @@ def propagate(body, init, transfer, start=0, max_states=40000, edge_filter=None)
     """forward propagation of sets of abstract states (breadth first, so witnesses are shortest).
     transfer(block_idx, state) -> iterable of (succ_block | None, new_state). `None` as successor
     means the path ends (return); those states are collected as exits.
-    Returns (states_in: dict block -> set(states), exits: list of (block, state), parent map)."""
+    Returns (states_in: dict block -> set(states), exits: list of (block, state), parent map).
+    Edges that contradict a constant assigned on the path (`ok = false; .. if ok {..}`, the `Err` of a spliced helper reaching the `?`'s
+    Continue arm) are not followed: the walk carries the state of the body's value tracker (facts._ValueTracker) next to the caller's state."""
+    vt = body.value_tracker() if hasattr(body, "value_tracker") else None
     states_in = defaultdict(set)
     states_in[start].add(init)
-    work = deque([(start, init)])
+    v0 = vt.initial() if vt is not None else None
+    work = deque([(start, init, v0)])
+    seen = {(start, init, v0)}
     parent = {(start, init): None}
     allpreds = defaultdict(set)
     exits = []
     n = 0
     while work:
-        b, st = work.popleft()
+        b, st, vs = work.popleft()
         n += 1
         if n > max_states:
             raise RuntimeError("path analysis diverges in %s (more than %d states): a loop is not neutral"
                                % (body.path, max_states))
+        feasible = None
+        if vt is not None:
+            feasible = {}
+            for s_, vs2 in vt.step(b, vs):
+                feasible.setdefault(s_, []).append(vs2)
         for succ, ns in transfer(b, st):
             if succ is None:
-                exits.append((b, st, ns))
+                if (b, st, ns) not in exits:
+                    exits.append((b, st, ns))
                 continue
             if edge_filter is not None and not edge_filter(b, succ):
+                continue
+            if feasible is not None and succ not in feasible:
                 continue
             allpreds[(succ, ns)].add((b, st))
             if ns not in states_in[succ]:
                 states_in[succ].add(ns)
                 parent[(succ, ns)] = (b, st)
-                work.append((succ, ns))
+            for vs2 in (feasible[succ] if feasible is not None else [None]):
+                if (succ, ns, vs2) not in seen:
+                    seen.add((succ, ns, vs2))
+                    work.append((succ, ns, vs2))
     parent["__allpreds__"] = allpreds
     return states_in, exits, parent
 
